@@ -16,7 +16,7 @@ func init() {
 		ID: "C14",
 		Explanation: `R14.1 emit/advance pairing: OverlayOp messages are written only by fresh, skip and Finalize; fresh advances readOffset by len of the data it stored in the op, skip by the length it stored, on every success path; ` +
 			`R14.2 Finalize flushes (checked) before writing the end marker, and the entry writer finalizes the overlay before syncing; R14.3 magic and header are written only at overlay offset 0 and the byte counter is seeded with the overlay offset; ` +
-			`R14.4 every op type the writer emits has a case in the applier and the applier returns nil only at the end marker; R14.5 the old-file window is inspected only below the count its Read returned; ` +
+			`R14.4 every op type the writer emits has a case in the applier and the applier returns nil only at the end marker; R14.5 the old-file window is inspected only below the count its Read returned; R14.6 that read cannot come back short before the end of the old file (a full read, or a single Read on a reader that is not a bufio.Reader); ` +
 			`R02.4 (shared) the caller truncates at the position the applier ended. NOT decided: the window/skip index arithmetic, write slicing, short reads of the old file.`,
 		Run: runC14,
 	})
@@ -42,6 +42,7 @@ func runC14(c *core.Ctx) {
 	c.Rule("R14.3", "header only at offset zero; counter seeded")
 	c.Rule("R14.4", "applier exhaustive, terminates only at the marker")
 	c.Rule("R14.5", "old-file window inspected only below the count read")
+	c.Rule("R14.6", "the window read is a full read or does not go through a buffering reader")
 	c.Rule("R02.4", "overlay application ends with truncation at the applier's final position")
 	opT := overlayOpTypes(c.P)
 	if len(opT) < 3 {
@@ -319,6 +320,45 @@ func runC14(c *core.Ctx) {
 		if rd == nil {
 			c.Bad("R14.5", core.FnName(wr), "read of the old-file window", wr.Pos(), "no Read into ow.rbuf found")
 		} else {
+			// R14.6: a short count from the window read is taken for the end of the old file, so the read must not
+			// be able to come back short before the end: it is a full read (io.ReadFull / ReadAtLeast), or the
+			// reader is not a buffering one (files and in-memory readers fill the buffer; a bufio.Reader hands out
+			// what it happens to hold)
+			if rd.Call.IsInvoke() {
+				_, rfield, okf := core.FieldOf(rd.Call.Value)
+				raw, nSt := okf, 0
+				if okf {
+					for _, f := range c.P.SrcFuncs() {
+						if !strings.HasSuffix(core.PkgPathOf(f), "/pwr/overlay") {
+							continue
+						}
+						core.Instrs(f, func(in ssa.Instruction) {
+							st, ok := in.(*ssa.Store)
+							if !ok {
+								return
+							}
+							b, n, ok := core.FieldOf(st.Addr)
+							if !ok || n != rfield || core.TypeName(b.Type()) != core.TypeName(mustBase(rd.Call.Value).Type()) {
+								return
+							}
+							nSt++
+							for _, o := range core.Origins(st.Val) {
+								// a buffering reader hands out what it happens to hold: short counts in mid-file
+								if mi, ok := o.(*ssa.MakeInterface); ok && core.TypeName(mi.X.Type()) == "bufio.Reader" {
+									raw = false
+								}
+								if core.TypeName(core.StripConv(o).Type()) == "bufio.Reader" {
+									raw = false
+								}
+							}
+						})
+					}
+				}
+				c.Check(raw && nSt > 0, "R14.6", core.FnName(wr), "the window read cannot come back short before the end of the old file", core.InstrPos(rd),
+					"single Read on a reader that is not a buffering (bufio) reader", "the old-file window is filled with a single Read on a bufio.Reader, which returns what it happens to hold: a short count in the middle of the file is taken for its end, and later windows are compared against the wrong old bytes")
+			} else {
+				c.Ok("R14.6", core.FnName(wr), "the window read cannot come back short before the end of the old file", core.InstrPos(rd), "full read ("+core.CalleeName(rd)+")")
+			}
 			isCount := func(v ssa.Value) bool { return extractOf(v, rd, 0) }
 			n := 0
 			for _, f := range core.WithAnons(wr) {
@@ -417,4 +457,12 @@ func ruleTruncate(c *core.Ctx, rule string) {
 			"Patch -> Seek(0, SeekCurrent) -> Truncate(that position) on every success path", "after applying an overlay the file is not truncated at the applier's final position on every success path: a file that became shorter keeps its old tail")
 	}
 	c.Floor(rule, "success returns of the overlay handler", n, 1)
+}
+
+// mustBase returns the struct value a field load / address is taken from (or v).
+func mustBase(v ssa.Value) ssa.Value {
+	if b, _, ok := core.FieldOf(v); ok {
+		return b
+	}
+	return v
 }
